@@ -19,7 +19,7 @@ import (
 )
 
 type c04Op struct {
-	Op    string `json:"op"` // pub2 retransmit pubrel pub1 reconnect takeover
+	Op    string `json:"op"` // pub2 retransmit pubrel pub1 reconnect takeover restart
 	ID    uint16 `json:"id,omitempty"`
 	Clean bool   `json:"clean,omitempty"`
 	// takeover: K QoS0 publishes to a slow topic and a QoS2 PUBLISH(id) are written without waiting for anything; a
@@ -58,6 +58,9 @@ func genC04(backend string) func(t *rapid.T) c04Scen {
 				s.Ops = append(s.Ops, c04Op{Op: "pub1", ID: uint16(10 + rapid.IntRange(0, 2).Draw(t, "id1"))})
 			case k == 10 && rapid.Bool().Draw(t, "tk"):
 				s.Ops = append(s.Ops, c04Op{Op: "takeover", ID: id, K: rapid.IntRange(0, 3).Draw(t, "k")})
+			case k == 11 && backend == "redis" && rapid.Bool().Draw(t, "restart"):
+				// the broker process is replaced by a new one on the same redis (nothing is lost: a clean shutdown)
+				s.Ops = append(s.Ops, c04Op{Op: "restart"})
 			default:
 				s.Ops = append(s.Ops, c04Op{Op: "reconnect", Clean: rapid.IntRange(0, 3).Draw(t, "clean") == 0})
 			}
@@ -94,13 +97,13 @@ func runC04(s c04Scen, c *ev.Case) *ev.Violation {
 	if err != nil {
 		return harnessErr("start broker: %v", err)
 	}
-	defer b.Stop()
+	defer func() { b.Stop() }()
 
 	sub, ack, err := b.Connect(fixture.ConnectOpts{ID: "sub", V: mw.V5, CleanStart: true, AutoAck: true})
 	if err != nil || ack.ReasonCode != 0 {
 		return harnessErr("subscriber connect: %v %v", ack, err)
 	}
-	defer sub.Kill()
+	defer func() { sub.Kill() }()
 	if err := subscribeSentinel(sub); err != nil {
 		return harnessErr("%v", err)
 	}
@@ -140,6 +143,7 @@ func runC04(s c04Scen, c *ev.Case) *ev.Violation {
 		return pk
 	}
 
+	var gotEarlier []string         // what the subscriber received before a broker restart
 	awaiting := map[uint16]string{} // id -> uid of the message awaiting PUBREL
 	var forwarded []string
 	uid := 0
@@ -257,6 +261,54 @@ func runC04(s c04Scen, c *ev.Case) *ev.Violation {
 			nontrivial = true
 			// whatever of the first connection's packets the broker still held has been handled before this returns
 			old.WaitClosed(fixture.DefaultWait)
+		case "restart":
+			if s.Backend != "redis" || !persistent {
+				c.Count("skipped_ops", 1)
+				continue
+			}
+			// what the subscriber has got so far stays part of the record
+			if err := sentinelBarrier(b, []*fixture.Client{sub}, fmt.Sprintf("restart%d", i)); err != nil {
+				return ev.Violf("C04.barrier", "%v", err)
+			}
+			for _, r := range sub.Take(func(p *mw.Packet) bool { return p.Type == mw.PUBLISH }) {
+				if !isSentinel(r.P) && !strings.HasPrefix(string(r.P.Payload), "filler-") {
+					gotEarlier = append(gotEarlier, string(r.P.Payload))
+				}
+			}
+			p.Kill()
+			sub.Kill()
+			if err := b.Stop(); err != nil {
+				return ev.Violf("C04.restart", "Stop: %v", err)
+			}
+			nb, err := fixture.Start(fixture.Opts{Config: cfg, Hooks: hooks})
+			if err != nil {
+				return ev.Violf("C04.restart", "the broker does not start again on the same store: %v", err)
+			}
+			b = nb
+			nsub, ack, err := b.Connect(fixture.ConnectOpts{ID: "sub", V: mw.V5, CleanStart: true, AutoAck: true})
+			if err != nil || ack.ReasonCode != 0 {
+				return harnessErr("subscriber connect: %v %v", ack, err)
+			}
+			sub = nsub
+			if err := subscribeSentinel(sub); err != nil {
+				return harnessErr("%v", err)
+			}
+			if code, err := subscribeOne(sub, 2, subSpec{Filter: "#", QoS: 2}); err != nil || code != 2 {
+				return harnessErr("subscribe #: %v %v", code, err)
+			}
+			np, ack, err := connectP(false)
+			if err != nil || ack == nil || ack.ReasonCode != 0 {
+				return ev.Violf("C04.reconnect", "reconnect after the restart failed: %v %v", ack, err)
+			}
+			p = np
+			if !ack.SessionPresent {
+				return ev.Violf("C04.session-present", "reconnect with clean=0 after a broker restart on the same redis: Session Present = 0").With("version", s.V)
+			}
+			c.Label("broker_restart")
+			if len(awaiting) > 0 {
+				c.Label("restart_between_publish_and_pubrel")
+				nontrivial = true
+			}
 		case "reconnect":
 			p.Kill()
 			np, ack, err := connectP(op.Clean)
@@ -297,7 +349,7 @@ func runC04(s c04Scen, c *ev.Case) *ev.Violation {
 	if err := sentinelBarrier(b, []*fixture.Client{sub}, "end"); err != nil {
 		return ev.Violf("C04.barrier", "%v", err)
 	}
-	var got []string
+	got := append([]string(nil), gotEarlier...)
 	for _, r := range sub.Take(func(p *mw.Packet) bool { return p.Type == mw.PUBLISH }) {
 		if !isSentinel(r.P) && !strings.HasPrefix(string(r.P.Payload), "filler-") {
 			got = append(got, string(r.P.Payload))
